@@ -83,8 +83,10 @@ def reparse_if_needed(student_code=None, report=MAIN_REPORT):
             cait['error'] = outcomes.get(student_code)
             cait['success'] = cait['error'] is None
             return cait
-        # Try to steal parse from Source module, if available
-        if report[SOURCE_TOOL_NAME]['success']:
+        # Try to steal parse from Source module, if available (and if what
+        # it parsed is this very text, not some other code it was shown)
+        if (report[SOURCE_TOOL_NAME]['success'] and
+                report[SOURCE_TOOL_NAME].get('verified_code') == student_code):
             student_ast = report[SOURCE_TOOL_NAME]['ast']
             cait['success'], cait['error'] = True, None
         else:
